@@ -89,9 +89,15 @@ def check_string(env, s, rec, deep, with_sql):
         if not isinstance(x, env.errors.PyroError):
             rec.count("rejected_with_non_pyro_exception")
         return None
-    rec.case(("s", s), nontrivial=True, sample={"input": s, "text": str(u), "fields": core.jsonable(fields(u))} if rec.evaluations % 977 == 5 else None)
+    try:
+        t = str(u)
+    except Exception as x:
+        rec.case(("s", s), nontrivial=True)
+        rec.count("accepted")
+        rec.violation("text-form-raises:" + classify(u), "URI(%r) accepted -> fields %r, but taking its text form raises %r" % (s, fields(u), x), ("s", s))
+        return None
+    rec.case(("s", s), nontrivial=True, sample={"input": s, "text": t, "fields": core.jsonable(fields(u))} if rec.evaluations % 977 == 5 else None)
     rec.count("accepted")
-    t = str(u)
     try:
         u2 = URI(t)
     except Exception as x:
